@@ -37,6 +37,9 @@ def classACycle (m : MacState) (rx1 rx2 : Option (RxView × Int)) (mp1 mp2 : Nat
 /-- a radio fault after the frame was handed to the radio: the front-end burns the counter -/
 def faultAfterTx (m : MacState) : MacState := (macRx2Complete m).2
 
+/-- … and reports an exhausted counter space even so -/
+def faultExpired (m : MacState) : Bool := (macRx2Complete m).1 == .sessionExpired
+
 /-- the session's uplink counter, if joined -/
 def MacState.fcntUp? (m : MacState) : Option Nat :=
   match m.st with
@@ -219,13 +222,13 @@ def asyncSend {σ} (g : Rng σ) (cfg : DevCfg) (r : DevRun) (data : List Nat) (p
   | none => pure (.errMac, r, rs)
   | some out =>
     match r.simpleCall (.tx out.tx (frameLen out.frame)) with
-    | .radioErr r => pure (.errRadio, { r with m := faultAfterTx r.m }, rs)
+    | .radioErr r => pure (if faultExpired r.m then .ok .sessionExpired else .errRadio, { r with m := faultAfterTx r.m }, rs)
     | .macErr r => pure (.errMac, r, rs)
     | .cont _ r =>
       match (← rxDownlink cfg false out.tx (r.log .reset)) with
       | .cont resp r => pure (.ok resp, r, rs)
-      | .radioErr r => pure (.errRadio, { r with m := faultAfterTx r.m }, rs)
-      | .macErr r => pure (.errMac, { r with m := faultAfterTx r.m }, rs)
+      | .radioErr r => pure (if faultExpired r.m then .ok .sessionExpired else .errRadio, { r with m := faultAfterTx r.m }, rs)
+      | .macErr r => pure (if faultExpired r.m then .ok .sessionExpired else .errMac, { r with m := faultAfterTx r.m }, rs)
 
 /-- `Device::join` (OTAA) -/
 def asyncJoin {σ} (g : Rng σ) (cfg : DevCfg) (r : DevRun) (rs : σ) : M (DevResult × DevRun × σ) := do
